@@ -110,6 +110,7 @@ class Block:
         self.contract_only = False
         self.attrs = []
         self.early_return = False
+        self.declared_unreachable = False
         self.slice_after = False
         self.imported_from = None
 
@@ -203,6 +204,10 @@ def parse_template(path):
                 cur.ret = arg
             elif key == 'early-return':
                 cur.early_return = True
+            elif key == 'declared-unreachable':
+                # the function is a piece of code that must never run (its contract is `requires false`): the obligation
+                # lies with its callers, and the canary - which would rightly call such a body vacuous - skips it
+                cur.declared_unreachable = True
             elif key == 'attr':
                 cur.attrs.append(arg)
             elif key == 'tail':
@@ -632,7 +637,8 @@ def expand_block(blk, gen, unit_id):
     gen.functions.append(dict(name=fname, label=blk.label, kind=kind, repo_file=blk.file,
                               repo_lines=[base, base + body.count('\n')], item=blk.item, sha256=sha,
                               gen_range=[start_gen + 1, end_gen], obligations=obligations, contracted=True,
-                              has_requires=has_req, body_first_gen_line=body_gen_start + 1))
+                              has_requires=has_req, body_first_gen_line=body_gen_start + 1,
+                              declared_unreachable=getattr(blk, 'declared_unreachable', False)))
 
 
 def first_nonblank(t):
@@ -756,7 +762,7 @@ def canary_text(gen, tfuncs):
     lines = list(gen.lines)
     targets = []   # (name, gen_line_of_canary)
     for f in gen.functions:
-        if f.get('contracted'):
+        if f.get('contracted') and not f.get('declared_unreachable'):
             li = f['body_first_gen_line'] - 1      # 1-based line holding the lone '{'
             assert lines[li - 1].strip() == '{', lines[li - 1]
             lines[li - 1] = '{ assert(false);'
